@@ -6,6 +6,7 @@ from h5 import gen, lean, wire
 
 ID = "C13"
 PROPS_MODULE = "H5.Props.C13"
+EXTRA_PROPS_MODULES = ["H5.Props.C13b"]
 GEN_MODULES = ["OptionalTags"]
 CORRESPONDENCE_OPS = ["fn:isOptionalStart", "fn:isOptionalEnd", "optfilter"]
 SOURCES = ["html5lib/filters/optionaltags.py"]
